@@ -154,7 +154,7 @@ def shrink(ctx, t):
 
 
 def run(ctx):
-    ok, why = ctx.proof_stage("Props.C26", ["flags_spec", "flags_masked_spec"])
+    ok, why = ctx.proof_stage("Props.C26", ["flags_spec", "flags_masked_spec", "flags_shift_invariant"])
     cases = gen_cases(ctx)
     for fam, t in cases[:3] + cases[-3:]:
         ctx.sample({"family": fam, "type": sx.to_sexp(t)})
